@@ -118,7 +118,7 @@ def _eval_ctx(asg):
 
 def native_close(lhs, rhs, rtol=RTOL):
     a, sa = _flat(lhs); b, sb = _flat(rhs)
-    if len(a) != len(b):
+    if len(a) != len(b) or sa != sb:        # same rule as the symbolic comparison: a result of the wrong SHAPE is a failed clause even if its flattened entries agree
         return False
     a = np.array([complex(x) for x in a]); b = np.array([complex(x) for x in b])
     scale = max(1.0, np.abs(a).max() if a.size else 1.0, np.abs(b).max() if b.size else 1.0)
@@ -319,5 +319,5 @@ def verify_identity(contract, shape, tier, rng, crosscheck=2, bounded_samples=0)
                 out.append(ob(f'{base}.crosscheck[{sh}]', 'fault', functions=funcs, tier='P', detail=f'cross-check evaluation failed: {ex}'))
                 break
     out.append(ob(f'{base}.meta[{sh}]', 'meta', functions=funcs, tier='P', paths=1, explore_s=round(t_run, 3), crosscheck_inputs=nx, backend='-',
-                  symbols=len(syms), root_symbols=len(alg.CTX[0].sqrt)))
+                  symbols=len(syms), root_symbols=len(alg.CTX[0].sqrt), max_rlimit=alg.NRA_RL_MAX[0]))
     return out
